@@ -59,6 +59,16 @@ func processScenarios(tier string) (out []Case2) {
 				Clients: [][]string{{"dial", "write:" + hexs, "quiesce"}, b}}
 			out = append(out, Case2{Scenario: sc, Budget: d})
 		}
+		// connection A dies with unconsumed bytes in its reassembly buffer (half a request; two pipelined requests of which
+		// the first makes the handler panic); connection B, accepted after A is gone, must be unaffected by A's leftovers
+		half := "1002000000061103006b"
+		sc1 := srvx.Scenario{Name: "P/leftover-half-request", Callbacks: cb, Handler: "instant", Control: "none",
+			Clients: [][]string{{"dial", "write:" + half, "quiesce", "close"}, {"quiesce", "quiesce", "dial", "send", "recv", "close"}}}
+		out = append(out, Case2{Scenario: sc1, Budget: d})
+		two := "1002000000061103006b0003" + "1003000000061103006b0001"
+		sc2 := srvx.Scenario{Name: "P/leftover-after-panic", Callbacks: cb, Handler: "instant", Control: "none", HandlerByConn: map[int]string{1: "panic"},
+			Clients: [][]string{{"dial", "write:" + two, "quiesce", "close"}, {"quiesce", "quiesce", "dial", "send", "recv", "close"}}}
+		out = append(out, Case2{Scenario: sc2, Budget: d})
 		// panic while shutdown is waiting for that very handler
 		sc := srvx.Scenario{Name: "P/panic-during-shutdown", Callbacks: cb, Handler: "sleep10", Control: "shutdown", ControlAt: 2, Clients: [][]string{{"dial", "send", "recv", "close"}}, PanicOnConn: 1}
 		out = append(out, Case2{Scenario: sc, Budget: d})
